@@ -229,9 +229,46 @@ class Observer(object):
                     self.tag(b, ["bip", j, i])
         return rt, problems, nodes
 
+    def register_origins(self, nodes, j):
+        """Nodes reached through `extraction_source` back-references (set by extract_tree* on the nodes of an extracted
+        tree) and everything hanging on them: the whole source-tree node graph, tagged positionally."""
+        if "extraction_source" in self.skip_attrs:
+            return []
+        roots = []
+        for nd in nodes:
+            x = getattr(nd, "__dict__", {}).get("extraction_source")
+            guard = 0
+            while x is not None and getattr(x, "_parent_node", None) is not None and guard < 100000:
+                x = x._parent_node
+                guard += 1
+            if x is not None and hasattr(x, "_child_nodes") and not any(x is r for r in roots):
+                roots.append(x)
+        found = []
+        for r, root in enumerate(roots):
+            stack = [root]
+            seen = set()
+            while stack:
+                x = stack.pop()
+                if id(x) in seen:
+                    continue
+                seen.add(id(x))
+                i = len(found)
+                found.append(x)
+                self.tag(x, ["origin-node", j, i])
+                e = getattr(x, "_edge", None)
+                if e is not None:
+                    self.tag(e, ["origin-edge", j, i])
+                    b = getattr(e, "_bipartition", None)
+                    if b is not None:
+                        self.tag(b, ["origin-bip", j, i])
+                stack.extend(reversed(list(getattr(x, "_child_nodes", []))))
+        return found
+
     def tree_full(self, tree, j=0):
         rt, problems, nodes = self.register_tree(tree, j)
-        out = {"problems": list(problems), "tree": self.state(tree), "nodes": []}
+        origins = self.register_origins(nodes, j)
+        out = {"problems": list(problems), "tree": self.state(tree), "nodes": [],
+               "origin": [[self.val(x), self.state(x), None if getattr(x, "_edge", None) is None else self.state(x._edge)] for x in origins]}
         for nd in nodes:
             e = getattr(nd, "_edge", None)
             b = getattr(e, "_bipartition", None) if e is not None else None
